@@ -178,3 +178,232 @@ Proof.
     { destruct P as [|p0 P0] eqn:EP; [apply OwedI_ext; intros u p _ []|]. rewrite CT by discriminate. reflexivity. }
     rewrite OLD. unfold isc_of in *. rewrite IS2, IS1 in A3. rewrite IS1 in A2. lia.
 Qed.
+
+(* ---------- WithdrawPosition ---------- *)
+Lemma collect_incentives_parts : forall b w cur pl now q b' w' col forf byup,
+  collect_incentives b w cur pl now q = Some (b', w', col, forf, byup) ->
+  prepare_claim_all_incentives w cur pl now (ps_lower q) (ps_upper q) (ps_id q) (ps_join q) = Some (w', col, forf, byup) /\
+  b_inc b' = (fst (b_inc b) - fst col, snd (b_inc b) - snd col) /\ b_spread b' = b_spread b.
+Proof.
+  unfold collect_incentives. intros b w cur pl now q b' w' col forf byup H.
+  destruct (prepare_claim_all_incentives _ _ _ _ _ _ _ _) as [[[[w1 c1] f1] by1]|]; [|discriminate H]. cbv beta iota in H.
+  destruct ((fst c1 =? 0) && (snd c1 =? 0)) eqn:EZ.
+  - inversion H; subst. split; [reflexivity|]. apply andb_true_iff in EZ. destruct EZ as [A B0]. apply Z.eqb_eq in A, B0.
+    rewrite A, B0, !Z.sub_0_r. split; [destruct (b_inc b'); reflexivity|reflexivity].
+  - destruct (send_inc_to_user b (ps_owner q) (fst c1) (snd c1)) as [b1|] eqn:E; [|discriminate H]. inversion H; subst.
+    split; [reflexivity|]. split; [eapply send_inc_to_user_binc; exact E|eapply send_inc_to_user_bspread; exact E].
+Qed.
+
+Lemma OwedI_set_upd_same : forall d w cur P q q2, ids_sorted P -> pos_get P (ps_id q2) = Some q ->
+  ps_lower q2 = ps_lower q -> ps_upper q2 = ps_upper q -> OwedI d w cur (pos_set P q2) = OwedI d w cur P.
+Proof.
+  intros d w cur P q q2 OS Q EL EU. unfold OwedI. apply usum_ext. intros u _. rewrite (zsum_set_upd _ P q2 q OS Q).
+  assert (X : owedU u d w cur q2 = owedU u d w cur q).
+  { unfold owedU. rewrite EL, EU, (pos_get_id _ _ _ Q). reflexivity. }
+  lia.
+Qed.
+
+Lemma prepare_claimable_spread_up : forall w sc cur lo hi id w' c, prepare_claimable_spread w sc cur lo hi id = Some (w', c) ->
+  rw_up w' = rw_up w /\ rw_recs w' = rw_recs w /\ rw_inc_scaling w' = rw_inc_scaling w /\ rw_next_inc w' = rw_next_inc w /\ rw_tt w' = rw_tt w.
+Proof. unfold prepare_claimable_spread. intros. obind H. inversion H; subst; simpl; auto. Qed.
+
+Lemma neutral_same_tt : forall cur w w' P d, rw_tt w' = rw_tt w -> rw_up w' = rw_up w -> rw_recs w' = rw_recs w ->
+  rw_inc_scaling w' = rw_inc_scaling w -> IW w P -> OwedI d w' cur P = OwedI d w cur P /\ IW w' P.
+Proof.
+  intros cur w w' P d TT UP RC IS HIW.
+  apply (stage_inc_neutral cur [] w w' P d (fun u => SE_same_tt (CU u d) cur _ _ TT) UP HIW RC IS). intros p _. simpl. tauto.
+Qed.
+
+Lemma inc_withdraw : forall rs owner id liq rs' amts d, PII rs ->
+  r_withdraw rs owner id liq = Some (rs', amts) ->
+  PII rs' /\ isc_of rs' = isc_of rs /\ PhiI d rs' <= PhiI d rs + 2 * (Z.of_nat NU * P18).
+Proof.
+  intros rs owner id liq rs' amts d [RI [HIW FR]] H.
+  pose proof (rinv_withdraw _ _ _ _ _ _ H RI) as RI'. pose proof RI as [I _]. pose proof RI' as [I' _]. pose proof P18_pos as HP.
+  unfold r_withdraw in H.
+  destruct (withdraw_position (r_base rs) owner id liq) as [[s amts']|] eqn:EB; [|discriminate H]. simpl in H.
+  destruct (pos_get (s_pos (r_base rs)) id) as [q|] eqn:Q; [|discriminate H]. simpl in H.
+  assert (QI : ps_id q = id) by (eapply pos_get_id; exact Q).
+  assert (QIn : In q (s_pos (r_base rs))) by (eapply pos_get_in; exact Q).
+  set (cur := p_tick (s_pool (r_base rs))) in *. set (pl := p_liq (s_pool (r_base rs))) in *. set (now := s_time (r_base rs)) in *.
+  set (lo := ps_lower q) in *. set (hi := ps_upper q) in *. set (P := s_pos (r_base rs)) in *.
+  destruct (collect_incentives (s_bank s) (r_rw rs) cur pl now q) as [[[[[b1 w1] col] forf] byup]|] eqn:E1; [|discriminate H]. simpl in H.
+  destruct (update_position_rewards w1 cur pl now lo hi id (ps_liq q - liq) (- liq)) as [w2|] eqn:E2; [|discriminate H]. simpl in H.
+  match type of H with (do bw <- ?X; _) = _ => destruct X as [[b2 w3]|] eqn:E3; [|discriminate H] end. simpl in H.
+  match type of H with (do bw2 <- ?X; _) = _ => destruct X as [[b3 w4]|] eqn:E4; [|discriminate H] end. simpl in H.
+  inversion H; subst rs' amts. clear H. simpl in RI', I'.
+  destruct amts' as [x0 x1].
+  destruct (withdraw_position_spec _ _ _ _ _ _ _ I EB) as [_ [NX [_ [_ [q' [Q' [_ [LQ SP]]]]]]]].
+  fold P in Q', SP. rewrite Q in Q'. inversion Q'; subst q'. clear Q'.
+  pose proof (withdraw_position_binc _ _ _ _ _ _ EB) as BI.
+  assert (OS : ids_sorted P) by apply (inv_pos_sorted _ I).
+  assert (LP : forall p, In p P -> 0 < ps_liq p).
+  { intros p Hp. pose proof (inv_pos_ok _ I) as F. rewrite Forall_forall in F. destruct (F p Hp) as [_ [X _]]. exact X. }
+  assert (HL : pl = sum_liq (f_range cur) P) by apply (inv_liq _ I).
+  (* A: collectIncentives *)
+  destruct (collect_incentives_parts _ _ _ _ _ _ _ _ _ _ _ E1) as [PC [BC1 _]]. fold lo hi in PC. rewrite QI in PC.
+  destruct (stage_inc_claim d _ cur pl now id (ps_join q) w1 col forf byup P q PC HIW HL Q OS LP)
+    as [T [T0 [INA [C0 [F0 [B0 [RD [FO [IW1 [TT1 [SP1 [IS1 [NI1 [RG1 [LB BN]]]]]]]]]]]]]]].
+  (* B: UpdatePosition with the negative delta *)
+  unfold update_position_rewards in E2.
+  destruct (ensure_tick w1 cur pl now lo) as [w1a|] eqn:E2a; [|discriminate E2]. simpl in E2.
+  destruct (ensure_tick w1a cur pl now hi) as [w1b|] eqn:E2b; [|discriminate E2]. simpl in E2.
+  destruct (init_or_update_uptime w1b cur pl now lo hi id (ps_liq q - liq) (- liq)) as [w1c|] eqn:E2c; [|discriminate E2]. simpl in E2.
+  destruct (stage_ensure_tick cur _ _ _ _ _ P d E2a IW1 HL) as [A1 [IW1a [_ [IS1a [NI1a RG1a]]]]].
+  destruct (stage_ensure_tick cur _ _ _ _ _ P d E2b IW1a HL) as [A2 [IW1b [_ [IS1b [NI1b RG1b]]]]].
+  unfold init_or_update_uptime in E2c.
+  destruct (update_uptime w1b pl now) as [wu|] eqn:EU; [|discriminate E2c]. cbv beta iota in E2c.
+  destruct (uptime_growth_inside wu cur lo hi) as [ins|] eqn:EI; [|discriminate E2c]. cbv beta iota in E2c.
+  destruct (uptime_growth_outside wu cur lo hi) as [outs|] eqn:EO; [|discriminate E2c]. cbv beta iota in E2c.
+  destruct (upd_uptime_accs (rw_up wu) ins outs id (ps_liq q - liq) (- liq)) as [ups|] eqn:EUp; [|discriminate E2c]. inversion E2c; subst w1c. clear E2c.
+  destruct IW1b as [OKb [Hib [LNb [PTb RMb]]]].
+  destruct (stage_accrue cur w1b pl now wu P d EU OKb Hib LNb PTb RMb HL) as [A3 [PTu [RMu [OKu [TTu [SPu [ISu [LNu [NIu RGu]]]]]]]]].
+  destruct (PTu q QIn) as [Hlu TKu]. fold lo hi in Hlu, TKu.
+  assert (NNS : forall u, (u < NU)%nat -> nn_shares id (acc_u u wu)).
+  { intros u Hu r R. destruct (RMu u q Hu QIn) as [r0 [R0 [S0 _]]]. rewrite QI in R0. rewrite R in R0. inversion R0; subst r0. rewrite S0. pose proof (LP q QIn). lia. }
+  destruct (stage_upd_core d wu cur lo hi id (ps_liq q - liq) (- liq) ins outs ups EI EO EUp LNu Hlu NNS) as [OTH [TGT [RGO [RCS [LNc INSc]]]]].
+  set (wc := set_up wu ups) in *.
+  (* the spread accumulator stage does not touch the uptime side *)
+  pose proof (init_or_update_spread_tt _ _ _ _ _ _ _ E2) as TT2.
+  assert (UP2 : rw_up w2 = rw_up wc /\ rw_recs w2 = rw_recs wc /\ rw_inc_scaling w2 = rw_inc_scaling wc /\ rw_next_inc w2 = rw_next_inc wc).
+  { unfold init_or_update_spread in E2. obind E2. destruct (negb (acc_has (rw_spread wc) id)); obind E2; inversion E2; subst; simpl; auto. }
+  destruct UP2 as [UP2 [RC2 [IS2 NI2]]].
+  assert (OW2 : forall u p, owedU u d w2 cur p = owedU u d wc cur p).
+  { intros u p. unfold owedU, acc_u, insU. rewrite UP2. rewrite (view_same (CU u d) wc w2 cur dc0 TT2); [reflexivity|]. unfold sel_G. rewrite UP2. reflexivity. }
+  (* amounts owed after B, over the old position list *)
+  assert (OB : 2 * OwedI d w2 cur P <= 2 * OwedI d wu cur P + Z.of_nat NU * P18).
+  { rewrite (OwedI_split d w2 cur P id q Q), (OwedI_split d wu cur P id q Q).
+    assert (X1 : OwedI d w2 cur (pos_remove P id) = OwedI d wu cur (pos_remove P id)).
+    { apply OwedI_ext. intros u p Hu Hp. rewrite OW2. apply OTH. apply (in_pos_remove P id p OS Hp). }
+    rewrite X1. rewrite (usum_ext _ _ (fun u => owedU u d wc cur q)) by (intros u _; apply OW2).
+    pose proof (TGT q QI eq_refl eq_refl). lia. }
+  (* records after B *)
+  destruct (stage_upd_core (negb d) wu cur lo hi id (ps_liq q - liq) (- liq) ins outs ups EI EO EUp LNu Hlu NNS) as [_ [_ [_ [RCS' _]]]].
+  fold wc in RCS'.
+  assert (PT2 : PT w2 P).
+  { intros p Hp. destruct (PTu p Hp) as [A [X1 [X2 X3]]]. split; [exact A|]. unfold tks. rewrite TT2. simpl. auto. }
+  assert (RG2 : forall u j, j <> id -> acc_get (acc_u u w2) j = acc_get (acc_u u wu) j).
+  { intros u j NE. unfold acc_u. rewrite UP2. apply RGO. exact NE. }
+  assert (R2Q : forall u, (u < NU)%nat -> exists r', acc_get (acc_u u w2) id = Some r' /\ ar_shares r' = ps_liq q - liq /\ forall d0, 0 <= dsel d0 (ar_unclaimed r')).
+  { intros u Hu. destruct (RMu u q Hu QIn) as [r [R [S UN]]]. rewrite QI in R.
+    destruct (RCS u Hu) as [EX _]. destruct (RCS' u Hu) as [EX' _]. destruct (EX r R) as [r' [R' [S' U']]]. destruct (EX' r R) as [r'' [R'' [_ U'']]].
+    rewrite R' in R''. inversion R''; subst r''. exists r'. unfold acc_u. rewrite UP2. split; [exact R'|]. split; [lia|].
+    intro d0. destruct (Bool.bool_dec d0 d) as [->|ND]; [apply U'; apply UN|].
+    assert (d0 = negb d) as -> by (destruct d0; destruct d; simpl; congruence). apply U''; apply UN. }
+  set (P' := s_pos s) in *.
+  assert (Is : Inv s) by (eapply inv_same_but_bank; [|exact I']; repeat split).
+  assert (Ss : ids_sorted P') by apply (inv_pos_sorted _ Is).
+  (* membership in the new list *)
+  assert (PIN : forall p, In p P' -> (In p P /\ ps_id p <> id) \/ (liq <> ps_liq q /\ p = mkPos id owner lo hi (ps_liq q - liq) (ps_join q))).
+  { intros p Hp. rewrite SP in Hp. destruct (liq =? ps_liq q) eqn:EF.
+    - left. apply (in_pos_remove P id p OS Hp).
+    - apply Z.eqb_neq in EF. assert (Ss' : ids_sorted (pos_set P (mkPos id owner lo hi (ps_liq q - liq) (ps_join q)))) by (rewrite SP in Ss; exact Ss).
+      pose proof (in_pos_get _ _ Ss' Hp) as G.
+      rewrite pos_get_set in G. simpl in G. destruct (ps_id p =? id) eqn:EP.
+      + right. inversion G; subst p. auto.
+      + left. apply Z.eqb_neq in EP. split; [eapply pos_get_in; exact G|exact EP]. }
+  assert (IW2 : IW w2 P').
+  { split; [rewrite RC2; exact OKu|]. split; [rewrite IS2; unfold wc; simpl; rewrite ISu; exact Hib|]. split; [rewrite UP2; exact LNc|]. split.
+    - intros p Hp. destruct (PIN p Hp) as [[HpP _]|[_ ->]]; [apply PT2; exact HpP|]. simpl. apply (PT2 q QIn).
+    - intros u p Hu Hp. destruct (PIN p Hp) as [[HpP NE]|[_ ->]].
+      + rewrite (RG2 u _ NE). apply RMu; assumption.
+      + simpl. apply R2Q. exact Hu. }
+  (* amounts owed over the new list *)
+  assert (OP' : OwedI d w2 cur P' <= OwedI d w2 cur P).
+  { rewrite SP. destruct (liq =? ps_liq q) eqn:EF.
+    - rewrite (OwedI_split d w2 cur P id q Q).
+      assert (0 <= usum NU (fun u => owedU u d w2 cur q)); [|lia].
+      apply Z.eqb_eq in EF.
+      assert (X : forall n, (n <= NU)%nat -> 0 <= usum n (fun u => owedU u d w2 cur q)).
+      { induction n as [|n IHn]; intro Hn; simpl; [lia|]. assert (0 <= usum n (fun u => owedU u d w2 cur q)) by (apply IHn; lia).
+        set (tl := usum n (fun u => owedU u d w2 cur q)) in *.
+        destruct (R2Q n ltac:(lia)) as [r' [R' [S' U']]]. unfold owedU. rewrite QI, R'. unfold owedA. rewrite S', EF, Z.sub_diag, Z.mul_0_r.
+        pose proof (U' d). clearbody tl. nia. }
+      apply X. lia.
+    - rewrite (OwedI_set_upd_same d w2 cur P q _ OS); [lia|exact Q|reflexivity|reflexivity]. }
+  assert (CT : P' <> [] -> p_tick (s_pool s) = cur) by (intro NE; apply (withdraw_position_tick _ _ _ _ _ _ EB NE)).
+  (* C: forfeited incentives *)
+  assert (STC : exists fpaid, IW w3 P' /\ b_inc b2 = (fst (b_inc b1) - fst fpaid, snd (b_inc b1) - snd fpaid) /\
+            rw_tt w3 = rw_tt w2 /\ rw_inc_scaling w3 = rw_inc_scaling w2 /\ rw_recs w3 = rw_recs w2 /\
+            (forall u j, acc_get (acc_u u w3) j = acc_get (acc_u u w2) j) /\ b_spread b2 = b_spread b1 /\
+            2 * OwedI d w3 cur P' + 2 * ((pr_sel d col + pr_sel d fpaid) * rw_inc_scaling w2 * P18) <= 2 * OwedI d w2 cur P' + 2 * (T * P18 * P18)).
+  { assert (ISw : rw_inc_scaling w2 = rw_inc_scaling (r_rw rs)).
+    { rewrite IS2. unfold wc. simpl. rewrite ISu, IS1b, IS1a, IS1. reflexivity. }
+    destruct (p_liq (s_pool s) <? P18) eqn:EPL.
+    - destruct (send_inc_to_user b1 owner (fst forf) (snd forf)) as [bb|] eqn:E; [|discriminate E3]. inversion E3; subst b2 w3.
+      exists forf. split; [exact IW2|]. split; [eapply send_inc_to_user_binc; exact E|]. split; [reflexivity|]. split; [reflexivity|].
+      split; [reflexivity|]. split; [reflexivity|]. split; [eapply send_inc_to_user_bspread; exact E|]. rewrite ISw. lia.
+    - apply Z.ltb_ge in EPL. destruct (redeposit_forfeited w2 byup (p_liq (s_pool s))) as [ww|] eqn:E; [|discriminate E3]. inversion E3; subst b2 w3.
+      assert (NE : P' <> []).
+      { intro X. pose proof (inv_liq _ Is) as IL. fold P' in IL. rewrite X in IL. simpl in IL. lia. }
+      assert (HL' : p_liq (s_pool s) = sum_liq (f_range cur) P') by (rewrite (inv_liq _ Is), (CT NE); reflexivity).
+      destruct (stage_inc_redeposit d w2 cur byup _ ww P' E IW2 ltac:(lia) HL' BN) as [RDP [IW3 [TT3 [_ [RC3 [IS3 [_ RG3]]]]]]].
+      exists (0, 0). split; [exact IW3|]. split; [destruct (b_inc b1); simpl; f_equal; lia|]. split; [exact TT3|]. split; [exact IS3|].
+      split; [exact RC3|]. split; [exact RG3|]. split; [reflexivity|].
+      assert (Z0 : pr_sel d (0, 0) = 0) by (destruct d; reflexivity). rewrite Z0, ISw. lia. }
+  destruct STC as [fpaid [IW3 [BC2 [TT3 [IS3 [RC3 [RG3 [BS3 OW3]]]]]]]].
+  (* D: the spread rewards of a full withdrawal do not touch the uptime side *)
+  assert (STD : IW w4 P' /\ OwedI d w4 cur P' = OwedI d w3 cur P' /\ b_inc b3 = b_inc b2 /\ rw_recs w4 = rw_recs w3 /\ rw_inc_scaling w4 = rw_inc_scaling w3 /\
+            (forall u j, acc_get (acc_u u w4) j = acc_get (acc_u u w3) j)).
+  { destruct (liq =? ps_liq q).
+    - destruct (collect_spread_rewards b2 w3 (p_scaling (s_pool (r_base rs))) cur q) as [[[b4 w4'] c4]|] eqn:E5; [|discriminate E4].
+      inversion E4; subst b4 w4'. clear E4. unfold collect_spread_rewards in E5.
+      destruct (prepare_claimable_spread w3 _ cur (ps_lower q) (ps_upper q) (ps_id q)) as [[w5 c5]|] eqn:EPC; [|discriminate E5]. cbv beta iota in E5.
+      destruct (prepare_claimable_spread_up _ _ _ _ _ _ _ _ EPC) as [UP4 [RC4 [IS4 [_ TT4]]]].
+      assert (BB : b_inc b3 = b_inc b2 /\ w4 = w5).
+      { destruct ((fst c5 =? 0) && (snd c5 =? 0)); [inversion E5; subst; auto|].
+        destruct (send_spread_to_user b2 (ps_owner q) (fst c5) (snd c5)) as [bb|] eqn:E; [|discriminate E5]. inversion E5; subst.
+        split; [eapply send_spread_to_user_binc; exact E|reflexivity]. }
+      destruct BB as [BB ->].
+      destruct (neutral_same_tt cur w3 w5 P' d TT4 UP4 RC4 IS4 IW3) as [NA NB].
+      split; [exact NB|]. split; [exact NA|]. split; [exact BB|]. split; [exact RC4|]. split; [exact IS4|].
+      intros u j. unfold acc_u. rewrite UP4. reflexivity.
+    - inversion E4; subst b3 w4. split; [exact IW3|]. repeat split; reflexivity. }
+  destruct STD as [IW4 [OW4 [BC3 [RC4 [IS4 RG4]]]]].
+  (* E: RemoveTickInfo *)
+  set (t2 := match tick_get (s_ticks s) hi with
+             | None => tt_remove (match tick_get (s_ticks s) lo with None => tt_remove (rw_tt w4) lo | Some _ => rw_tt w4 end) hi
+             | Some _ => match tick_get (s_ticks s) lo with None => tt_remove (rw_tt w4) lo | Some _ => rw_tt w4 end end) in *.
+  set (w5 := set_tt w4 t2) in *.
+  assert (SE5 : forall k, SE k cur (removed s lo ++ removed s hi) w4 w5).
+  { intro k. unfold w5, t2, removed. destruct (tick_get (s_ticks s) lo); destruct (tick_get (s_ticks s) hi); simpl.
+    - replace (set_tt w4 (rw_tt w4)) with w4 by (destruct w4; reflexivity). apply SE_refl.
+    - apply SE_remove.
+    - apply SE_remove.
+    - pose proof (SE_trans k cur _ _ _ _ _ (SE_remove k cur w4 lo) (SE_remove k cur (set_tt w4 (tt_remove (rw_tt w4) lo)) hi)) as X.
+      simpl in X. exact X. }
+  assert (KEEP : forall p, In p P' -> ~ In (ps_lower p) (removed s lo ++ removed s hi) /\ ~ In (ps_upper p) (removed s lo ++ removed s hi)).
+  { intros p Hp. assert (HR : has_range s (ps_lower p) (ps_upper p)) by (exists p; auto).
+    destruct (has_range_stored _ _ _ Is HR) as [KA [KB _]].
+    split; intro X; apply in_app_or in X; destruct X as [X|X]; (eapply removed_stored; [|exact X]; assumption). }
+  destruct (stage_inc_neutral cur _ w4 w5 P' d (fun u => SE5 (CU u d)) eq_refl IW4 eq_refl eq_refl KEEP) as [OW5 IW5].
+  (* assemble *)
+  assert (NXI : id < s_next_id (r_base rs)).
+  { pose proof (inv_pos_ok _ I) as F. rewrite Forall_forall in F. destruct (F q QIn) as [[_ X] _]. lia. }
+  assert (ISC : rw_inc_scaling w5 = rw_inc_scaling (r_rw rs)).
+  { change (rw_inc_scaling w5) with (rw_inc_scaling w4). rewrite IS4, IS3, IS2. unfold wc. simpl. rewrite ISu, IS1b, IS1a, IS1. reflexivity. }
+  split; [|split; [exact ISC|]].
+  - split; [exact RI'|]. split; [exact IW5|].
+    intros u j Hj. simpl in Hj. rewrite NX in Hj. assert (j <> id) by lia. change (acc_u u (r_rw (mkRS (set_bank s b3) w5))) with (acc_u u w4).
+    rewrite RG4, RG3, (RG2 u j H), RGu, RG1b, RG1a, (RG1 u j H). apply FR. exact Hj.
+  - unfold PhiI, OwedInc, inc_bal, isc_of, cur_tick. cbn [r_base r_rw]. unfold set_bank. cbn [s_bank s_pool s_pos]. fold P'.
+    assert (ON : OwedI d w5 (p_tick (s_pool s)) P' = OwedI d w5 cur P').
+    { destruct P' as [|p0 P0] eqn:EP; [apply OwedI_ext; intros u p _ []|]. rewrite CT by discriminate. reflexivity. }
+    rewrite ON, OW5, OW4, ISC. change (rw_recs w5) with (rw_recs w4). rewrite RC4, RC3, RC2. change (rw_recs wc) with (rw_recs wu).
+    rewrite BC3, BC2, BC1, BI. fold P.
+    assert (ISa : rw_inc_scaling w1 = rw_inc_scaling (r_rw rs)) by exact IS1.
+    assert (ISw2 : rw_inc_scaling w2 = rw_inc_scaling (r_rw rs)) by (rewrite IS2; unfold wc; simpl; rewrite ISu, IS1b, IS1a, IS1; reflexivity).
+    rewrite ISw2 in OW3. rewrite ISa in A1. rewrite IS1a, ISa in A2. rewrite IS1b, IS1a, ISa in A3.
+    set (isc := rw_inc_scaling (r_rw rs)) in *. set (bal := b_inc (s_bank (r_base rs))) in *.
+    assert (BD : pr_sel d (fst (fst bal - fst col, snd bal - snd col) - fst fpaid, snd (fst bal - fst col, snd bal - snd col) - snd fpaid)
+                 = pr_sel d bal - pr_sel d col - pr_sel d fpaid) by (destruct d; simpl; lia).
+    rewrite BD. fold cur.
+    set (o0 := OwedI d (r_rw rs) cur P) in *. set (r0 := remD d (rw_recs (r_rw rs))) in *.
+    set (o1 := OwedI d w1 cur P) in *. set (r1 := remD d (rw_recs w1)) in *.
+    set (o1a := OwedI d w1a cur P) in *. set (r1a := remD d (rw_recs w1a)) in *.
+    set (o1b := OwedI d w1b cur P) in *. set (r1b := remD d (rw_recs w1b)) in *.
+    set (ou := OwedI d wu cur P) in *. set (ru := remD d (rw_recs wu)) in *.
+    set (o2 := OwedI d w2 cur P) in *. set (o2' := OwedI d w2 cur P') in *. set (o3 := OwedI d w3 cur P') in *.
+    set (cd := pr_sel d col) in *. set (fd := pr_sel d fpaid) in *. set (bd := pr_sel d bal) in *. set (nu := Z.of_nat NU) in *.
+    clearbody o0 r0 o1 r1 o1a r1a o1b r1b ou ru o2 o2' o3 cd fd bd isc nu. nia.
+Qed.
